@@ -58,7 +58,8 @@ GhostSMTSolver::attachClause(CRef in_clause)
 
     for (unsigned i = 0; i < c.size(); i++) {
         Lit l = c[i];
-        if (theory_handler.isDeclared(var(l))) {
+        // Atoms are declared to the theory only when solving starts, after the clauses have been attached
+        if (theory_handler.getLogic().isTheoryTerm(theory_handler.varToTerm(var(l)))) {
             int idx = toInt(l);
             assert(idx < static_cast<int>(thLitToClauses.size()));
             thLitToClauses[idx].push(in_clause);
